@@ -401,6 +401,20 @@ func (c *Ctx) flagPresenceLints() {
 			switch x := n.(type) {
 			case *ast.CallExpr:
 				fn := calleeOf(info, x)
+				if fn != nil && fn.Pkg() != nil && strings.HasSuffix(fn.Pkg().Path(), "spf13/cobra") {
+					switch fn.Name() {
+					case "MarkFlagsMutuallyExclusive", "MarkFlagsRequiredTogether", "MarkFlagsOneRequired", "MarkFlagRequired", "MarkPersistentFlagRequired":
+						var names []string
+						for _, a := range x.Args {
+							if tv, ok := info.Types[a]; ok && tv.Value != nil {
+								names = append(names, "--"+strings.Trim(tv.Value.ExactString(), `"`))
+							}
+						}
+						nch++
+						c.Violation("PRESENCE", c.enclosingFuncName(info, stack)+"/"+fn.Name()+"("+strings.Join(names, ",")+")", x.Pos(), "cobra's "+fn.Name()+" tests whether the options were given on the command line, not their values: passing the documented default of "+strings.Join(names, "/")+" explicitly does not behave like leaving it out").Clause = clause
+						return true
+					}
+				}
 				if fn == nil || fn.Name() != "Changed" || fn.Pkg() == nil || !strings.HasSuffix(fn.Pkg().Path(), "spf13/pflag") || len(x.Args) != 1 {
 					return true
 				}
@@ -425,7 +439,7 @@ func (c *Ctx) flagPresenceLints() {
 		})
 	}
 	c.Extra["flag_presence_tests"] = nch
-	c.Trivial("PRESENCE", "scan", token.NoPos, fmt.Sprintf("package cmd scanned for option-presence tests (Flags().Changed, NoOptDefVal): %d found", nch))
+	c.Trivial("PRESENCE", "scan", token.NoPos, fmt.Sprintf("package cmd scanned for option-presence tests (Flags().Changed, NoOptDefVal, cobra flag groups / required flags): %d found", nch))
 }
 
 // ---- C20 / C16: each `generate` command calls the generator its name and help announce
